@@ -128,7 +128,7 @@ func TestVfC09Listeners(t *testing.T) {
 		}
 		a := NewAsker(pip, "")
 		defer a.Close()
-		res := a.Ask(listener, EncodeMsg(qm), 5*time.Second, 0)
+		res := a.AskPatient(listener, EncodeMsg(qm), 5*time.Second)
 		if listener == "udp" && len(res.Resps) == 0 {
 			res = a.Ask(listener, EncodeMsg(qm), 5*time.Second, 0)
 		}
